@@ -1,4 +1,28 @@
-(* Proofs/Stream_quiet.v — quiescence of the stream core (C01/C02/C09). *)
+(* Proofs/Stream_quiet.v — quiescence of the stream core (C01 / C02 / C09), as
+   SAFETY theorems over all runs of Model/Stream.v from world0 (all micro-step
+   orders, all I/O outcomes).  Definitions of "quiescent" are in Model/StreamQuiet.v.
+
+   Run invariants proved here (none needs w_stale = false):
+     Oinv  (outstanding_inv)  too_full => the 'rttest' PING or its PONG is on the way
+     Pall / Pinv              per handler: ok = False => all four shut flags set;
+                              dropped => ok = False; connecting => nothing buffered;
+                              an end-of-stream read from the socket has been passed on
+                              as an EOF message (eof_passed)
+   Pure lemmas:  wait_set_spec (exactly when Proxy.pre_select waits for each fd),
+                 pre_select_fields, finished_test_callback.
+   Quiescence theorems (reachable, non-stale, quiescent state):
+     quiet_no_data            Q2: nothing in any buffer / queue / link of a direction
+                              whose receiving socket is open and connected; D = A
+     quiet_all_delivered      D = A unless the receiving end faulted (C01)
+     quiet_live_proxy_shape   Q3: the four situations of a handler; (d) is F20
+     quiet_flags_agree        shut flags of the two mux wrappers of a flow agree
+     quiet_wait_chain         no dead-lock between the ends: every handler waits for the
+                              outside world directly or through its live peer, or is F20
+   Section 11: vm_compute witnesses (quiescent states exist; the F20 state).
+   Section 12: the statements proposed for Props/C01.v, C02.v, C09.v.
+
+   The records of Stream_view / Stream_flow / Stream_cb are only used through their
+   projections (and cb_facts through the destr_cb tactic). *)
 From Coq Require Import List NArith Ascii Bool Lia.
 From SV Require Import Lib.Bytes Model.Wire Model.Chan Model.Stream Model.StreamQuiet
   Proofs.Wire_lemmas Proofs.Chan_lemmas Proofs.Stream_basic Proofs.Stream_wrap Proofs.Stream_cb
@@ -12,7 +36,8 @@ Local Open Scope N_scope.
 (* ================================================================== *)
 
 Definition fresh_proxy (p : proxy) : Prop :=
-  p_ok p = true /\ p_removed p = false /\ s_buf (p_s p) = [] /\ m_buf (p_m p) = [].
+  p_ok p = true /\ p_removed p = false /\ s_buf (p_s p) = [] /\ m_buf (p_m p) = [] /\
+  (s_sr (p_s p) = true -> s_sw (p_s p) = true).
 
 (* p' is p after a frame was handed to its mux wrapper *)
 Definition handed (p p' : proxy) : Prop :=
@@ -55,7 +80,7 @@ Proof.
       exists []. split; [symmetry; apply app_nil_r|discriminate].
     + unfold server_new_channel.
       destruct (s_try_connect (new_sock true) (io_conn o) (io_shut_ok o)) as [s|] eqn:Etc; [|discriminate].
-      destruct (try_connect_spec _ _ _ _ Etc) as ((T1 & _) & _).
+      destruct (try_connect_spec _ _ _ _ Etc) as ((T1 & _) & _ & _ & T4).
       intros H. apply ok_pair_inj in H. destruct H as [<- _]. cbn. splits; auto.
       * exists []. split; [symmetry; apply app_nil_r|discriminate].
       * intros g p'. unfold upd. destruct (N.eqb_spec g (e_next e)) as [->|Hne]; [|apply Hsame].
@@ -126,7 +151,7 @@ Proof.
     destruct (next_channel (w_maxc w) (occ (e_mux (w_cl w))) (x_chani (e_mux (w_cl w)))) as [[c|] ch];
       cbn [e_prox]; [|apply (Hsame Client)].
     unfold upd. destruct (N.eqb_spec g (e_next (w_cl w))) as [->|Hne]; [|apply (Hsame Client)].
-    intros [= <-]. right. unfold fresh_proxy. cbn. auto.
+    intros [= <-]. right. unfold fresh_proxy. cbn. splits; auto.
   - (* callback *)
     destruct (e_prox (get_end w sd) fid) as [p|] eqn:Ep; [|discriminate].
     destruct (live p) eqn:Elive; [|discriminate].
@@ -407,6 +432,120 @@ Proof.
     apply Hconn; reflexivity.
 Qed.
 
+(* ---- an end-of-stream that was read is passed on by the same callback ---- *)
+(* SockWrapper.copy_to(MuxWrapper): buffer drained and shut_read => EOF sent *)
+Lemma copy_s_to_m_eof s m x fid :
+  let '(s', m', x') := copy_s_to_m s m x fid in
+  s_buf s' = [] -> s_sr s = true -> m_sw m' = true.
+Proof.
+  unfold copy_s_to_m.
+  destruct (match s_buf s with
+            | (a :: b0) :: rest => let '(x1, w) := m_uwrite m x fid (a :: b0) in (advance (s_buf s) w, x1)
+            | _ => (drop_empty (s_buf s), x)
+            end) as [buf' x1].
+  destruct buf' as [|b bs].
+  - destruct (s_sr s) eqn:Es.
+    + destruct (nowrite_ext m x1 fid) as (nw & _ & _ & _ & N4 & _).
+      destruct (m_nowrite m x1 fid) as [m' x2]. cbn [fst] in N4. intros _ _. exact N4.
+    + intros _ H. discriminate.
+  - cbn. intros H. discriminate.
+Qed.
+
+(* shut_read of a socket wrapper is set without shut_write only by a clean EOF *)
+Definition sr_only_with_sw (s s' : sockw) : Prop :=
+  s_sr s' = true -> s_sw s' = false -> s_sr s = true.
+
+Lemma nowrite_sr s ok : sr_only_with_sw s (s_nowrite s ok).
+Proof. unfold sr_only_with_sw, s_nowrite. destruct (s_sw s); [auto|]. destruct ok; cbn; auto. discriminate. Qed.
+
+Lemma s_uwrite_sr s b o ok : sr_only_with_sw s (fst (s_uwrite s b o ok)).
+Proof.
+  unfold sr_only_with_sw, s_uwrite. destruct (s_conn s); [auto|].
+  destruct (if s_sw s then match o with SendAccept _ => SendErr EPipe | _ => o end else o) as [k| |e]; cbn [fst].
+  - cbn. auto.
+  - auto.
+  - assert (He : s_sr (s_seterr s ok) = true -> s_sw (s_seterr s ok) = false -> s_sr s = true).
+    { destruct (seterr_spec s ok) as (_ & _ & C & _). congruence. }
+    destruct e; try exact He.
+    apply (nowrite_sr (mkSock false (s_sr s) (s_sw s) (s_buf s) (s_exc s) (s_rd s) (s_wr s) true) ok).
+Qed.
+
+Lemma copy_m_to_s_sr m s o ok : sr_only_with_sw s (snd (copy_m_to_s m s o ok)).
+Proof.
+  unfold copy_m_to_s.
+  assert (P : forall bs1 : list bytes * sockw, sr_only_with_sw s (snd bs1) ->
+    sr_only_with_sw s (snd (let '(buf', s1) := bs1 in
+       match buf' with
+       | [] => if m_sr m then (mkMuxw (m_chan m) (m_sr m) (m_sw m) buf', s_nowrite s1 ok)
+               else (mkMuxw (m_chan m) (m_sr m) (m_sw m) buf', s1)
+       | _ :: _ => (mkMuxw (m_chan m) (m_sr m) (m_sw m) buf', s1)
+       end))).
+  { intros [buf' s1] H. cbn [snd] in H. destruct buf'; [|exact H]. destruct (m_sr m); [|exact H].
+    cbn [snd]. unfold sr_only_with_sw in *. intros A B. apply H; [|].
+    - apply (nowrite_sr s1 ok A B).
+    - destruct (s_sw s1) eqn:E; [|reflexivity].
+      destruct (nowrite_spec s1 ok) as (_ & _ & C & _). congruence. }
+  apply P. destruct (m_buf m) as [|[|a b0] rest]; cbn [snd]; try (unfold sr_only_with_sw; auto; fail).
+  pose proof (s_uwrite_sr s (a :: b0) o ok) as H.
+  destruct (s_uwrite s (a :: b0) o ok) as [s1 k]. exact H.
+Qed.
+
+Definition eof_passed (s : sockw) (m : muxw) : Prop :=
+  s_sr s = true -> s_sw s = false -> s_buf s = [] -> m_sw m = true.
+
+Lemma copies_eof sd s1 m0 x fid o :
+  let '(s2, m2, x2) := copies sd s1 m0 x fid o in eof_passed s2 m2.
+Proof.
+  unfold eof_passed. destruct sd; unfold copies.
+  - pose proof (copy_s_to_m_eof s1 m0 x fid) as H1. pose proof (copy_s_to_m_spec s1 m0 x fid) as S1.
+    destruct (copy_s_to_m s1 m0 x fid) as [[sa ma] xa].
+    destruct S1 as (new & _ & _ & _ & _ & Hsr & _).
+    pose proof (copy_m_to_s_sr ma sa (io_send o) (io_shut_ok o)) as H2.
+    pose proof (copy_m_to_s_spec ma sa (io_send o) (io_shut_ok o)) as S2.
+    destruct (copy_m_to_s ma sa (io_send o) (io_shut_ok o)) as [mb sb]. cbn [snd] in H2.
+    destruct S2 as (d & _ & _ & _ & _ & Gsw & Gbuf & _).
+    intros A B C. rewrite Gsw. apply H1; [congruence|]. rewrite <- Hsr. exact (H2 A B).
+  - pose proof (copy_m_to_s_sr m0 s1 (io_send o) (io_shut_ok o)) as H2.
+    destruct (copy_m_to_s m0 s1 (io_send o) (io_shut_ok o)) as [ma sa]. cbn [snd] in H2.
+    pose proof (copy_s_to_m_eof sa ma x fid) as H1. pose proof (copy_s_to_m_spec sa ma x fid) as S1.
+    destruct (copy_s_to_m sa ma x fid) as [[sb mb] xb].
+    destruct S1 as (new & _ & _ & _ & _ & Hsr & _).
+    intros A B C. apply H1; [exact C|congruence].
+Qed.
+
+Lemma callback_eof sd fid p x o p' x' : proxy_callback sd fid p x o = Ok (p', x') ->
+  eof_passed (p_s p') (p_m p').
+Proof.
+  rewrite proxy_callback_unfold.
+  destruct (s_try_connect (p_s p) (io_conn o) (io_shut_ok o)) as [s0|c] eqn:Etc; [|discriminate].
+  cbv zeta.
+  set (s1 := s_fill s0 (io_recv o) (io_shut_ok o)).
+  pose proof (copies_eof sd s1 (p_m p) x fid o) as Hc.
+  destruct (copies sd s1 (p_m p) x fid o) as [[s2 m2] x2].
+  set (s3 := if nonempty_buf (s_buf s2) && m_sw m2
+             then s_noread (mkSock (s_conn s2) (s_sr s2) (s_sw s2) [] (s_exc s2) (s_rd s2) (s_wr s2) (s_fault s2))
+             else s2).
+  assert (H3 : forall m3 x3, (if nonempty_buf (m_buf m2) && s_sw s2
+                     then m_noread (mkMuxw (m_chan m2) (m_sr m2) (m_sw m2) []) x2 fid
+                     else (m2, x2)) = (m3, x3) -> eof_passed s3 m3).
+  { intros m3 x3 E.
+    assert (Em : m_sw m3 = m_sw m2).
+    { destruct (nonempty_buf (m_buf m2) && s_sw s2).
+      - destruct (noread_ext (mkMuxw (m_chan m2) (m_sr m2) (m_sw m2) []) x2 fid) as (nw & _ & _ & _ & _ & N5 & _).
+        rewrite E in N5. cbn [fst] in N5. exact N5.
+      - inversion E. reflexivity. }
+    unfold eof_passed, s3. rewrite Em. destruct (nonempty_buf (s_buf s2) && m_sw m2) eqn:Ed.
+    - apply andb_true_iff in Ed. intros _ _ _. apply Ed.
+    - exact Hc. }
+  destruct (if nonempty_buf (m_buf m2) && s_sw s2 then _ else _) as [m3 x3].
+  specialize (H3 m3 x3 eq_refl).
+  destruct (s_sr s3 && m_sr m3 && negb (nonempty_buf (s_buf s3)) && negb (nonempty_buf (m_buf m3))).
+  - destruct (m_nowrite m3 x3 fid) as [m4 x4]. intros H. apply ok_pair_inj in H. destruct H as [<- _].
+    cbn [p_s p_m]. unfold eof_passed.
+    destruct (nowrite_spec s3 (io_shut_ok o)) as (_ & _ & N & _). intros _ B. congruence.
+  - intros H. apply ok_pair_inj in H. destruct H as [<- _]. exact H3.
+Qed.
+
 (* Proxy.pre_select, field by field *)
 Lemma pre_select_fields sd fid p x :
   let '(p', x', ws) := proxy_pre_select sd fid p x in
@@ -434,20 +573,23 @@ Definition flags4 (p : proxy) : Prop :=
 Record Pinv (p : proxy) : Prop := {
   pi_dead : p_ok p = false -> flags4 p;
   pi_removed : p_removed p = true -> p_ok p = false;
-  pi_conn : s_conn (p_s p) = true -> flat (s_buf (p_s p)) = []
+  pi_conn : s_conn (p_s p) = true -> flat (s_buf (p_s p)) = [];
+  (* an end-of-stream read from the socket has been passed on as an EOF message *)
+  pi_eof : eof_passed (p_s p) (p_m p)
 }.
 
 Lemma Pinv_fresh p : fresh_proxy p -> Pinv p.
 Proof.
-  intros (A & B & C & D). constructor.
+  intros (A & B & C & D & E). constructor.
   - congruence.
   - congruence.
   - intros _. rewrite C. reflexivity.
+  - intros H1 H2 _. rewrite (E H1) in H2. discriminate.
 Qed.
 
 Lemma Pinv_pstep p p' : Pinv p -> pstep p p' -> Pinv p'.
 Proof.
-  intros [Hd Hr Hc] [->|sd fid x o x' Hl Hcb|sd fid x x' ws Hl Hps|(A & B & C & D)|Hok ->].
+  intros [Hd Hr Hc He] [->|sd fid x o x' Hl Hcb|sd fid x x' ws Hl Hps|(A & B & C & D)|Hok ->].
   - constructor; assumption.
   - destruct (callback_extra _ _ _ _ _ _ _ Hcb) as [E1 E2].
     pose proof (callback_spec _ _ _ _ _ _ _ Hcb) as F. destr_cb F.
@@ -457,6 +599,7 @@ Proof.
       destruct (Hd H0) as (Q1 & Q2 & Q3 & Q4). unfold flags4. auto.
     + rewrite Fremoved. intros H. apply E1. apply Hr. exact H.
     + intros H. destruct (E2 H) as [H0 Hb]. apply Hb. apply Hc. exact H0.
+    + exact (callback_eof _ _ _ _ _ _ _ Hcb).
   - pose proof (pre_select_fields sd fid p x) as F. rewrite Hps in F.
     destruct F as (F1 & F2 & F3 & F4 & F5 & F6 & F7 & F8 & F9 & _).
     constructor.
@@ -464,14 +607,18 @@ Proof.
       rewrite F6, F7, F8, F9, Q1, Q2, Q3, Q4. auto.
     + rewrite F1, F2. exact Hr.
     + rewrite F3, F4. exact Hc.
+    + unfold eof_passed in *. rewrite F4, F6, F7, F9. intros H1 H2 H3.
+      destruct (m_sw (p_m p)); [reflexivity|]. rewrite orb_false_r in H1. apply He; assumption.
   - destruct D as (_ & D1 & D2). constructor.
     + rewrite A. intros H. destruct (Hd H) as (Q1 & Q2 & Q3 & Q4). unfold flags4. rewrite C. auto.
     + rewrite A, B. exact Hr.
     + rewrite C. exact Hc.
+    + unfold eof_passed in *. rewrite C. intros H1 H2 H3. apply D2. apply He; assumption.
   - constructor; cbn.
     + exact Hd.
     + intros _. exact Hok.
     + exact Hc.
+    + exact He.
 Qed.
 
 Definition Pall (w : world) : Prop := forall sd g p, e_prox (get_end w sd) g = Some p -> Pinv p.
@@ -830,3 +977,348 @@ Lemma finished_shape_next_callback sd fid p x o p'' x'' :
 Proof.
   intros Hf Hcb. destruct (finished_test_callback _ _ _ _ _ _ _ Hf Hcb) as (A & B & _). auto.
 Qed.
+
+(* the shape the harness looks for (all four flags set, both buffers empty, ok = True)
+   is a special case of (d) *)
+Lemma flags4_finished sd fid p x :
+  flags4 p -> s_buf (p_s p) = [] -> m_buf (p_m p) = [] -> finished_test (pre_p sd fid p x) = true.
+Proof.
+  intros (A & B & C & D) Hs Hm. unfold finished_test.
+  destruct (pre_p_fields sd fid p x) as (F1 & F2 & F3 & F4 & _).
+  rewrite F1, F2, F3, F4, A, C, Hs, Hm. reflexivity.
+Qed.
+
+(* no handler the loop still runs holds buffered payload at quiescence (whether or not
+   its sockets have been shut down), unless its connect is still pending *)
+Theorem quiet_active_buffers_empty maxc lbs w sd fid p :
+  reachable maxc lbs w -> quiescent w ->
+  e_prox (get_end w sd) fid = Some p -> active p = true -> s_conn (p_s p) = false ->
+  s_buf (p_s p) = [] /\ m_buf (p_m p) = [].
+Proof.
+  intros Hr Q Ep Ha Ec.
+  pose proof (quiescent_not_paused _ _ _ Hr Q sd) as Htf. unfold tf in Htf.
+  exact (proxy_quiet_buffers _ _ _ _ (eq_prox _ _ (quiescent_end w sd Q) fid p Ep Ha) Htf Ec).
+Qed.
+
+(* ================================================================== *)
+(* 10. Who waits for whom: no dead-lock between the two ends            *)
+(* ================================================================== *)
+
+(* at quiescence the shut flags of the two mux wrappers of a flow agree: an end has
+   sent EOF (or been told to stop) exactly when its peer has stopped reading *)
+Lemma quiet_flags_agree maxc lbs w rs f :
+  reachable maxc lbs w -> w_stale w = false -> quiescent w ->
+  m_sw (pM (rprox w rs f)) = m_sr (pM (wprox w rs f)).
+Proof.
+  intros Hr Hst Q.
+  pose proof (g_views w (reachable_Ginv _ _ _ Hr Hst) rs f) as V.
+  pose proof (vi_n1 _ V) as N1. pose proof (vi_n3 _ V) as N3.
+  unfold view_of in N1, N3. cbn [vrmsw vwmsr vP vstop] in N1, N3.
+  rewrite (quiescent_paths w Q rs) in N1. rewrite (quiescent_paths w Q (other rs)) in N3.
+  cbn [filter has_eof existsb] in N1, N3.
+  destruct (m_sw (pM (rprox w rs f))) eqn:E1, (m_sr (pM (wprox w rs f))) eqn:E2; try reflexivity.
+  - destruct (N1 eq_refl) as [C|C]; discriminate.
+  - destruct (N3 eq_refl) as [C|C]; discriminate.
+Qed.
+
+(* at quiescence both ends of a flow exist as soon as one does *)
+Lemma quiet_peer_exists maxc lbs w sd f p :
+  reachable maxc lbs w -> w_stale w = false -> quiescent w ->
+  e_prox (get_end w sd) f = Some p -> exists q, e_prox (get_end w (other sd)) f = Some q.
+Proof.
+  intros Hr Hst Q Ep. pose proof (g_al w (reachable_Ginv _ _ _ Hr Hst)) as AL.
+  destruct sd; cbn [other get_end] in *.
+  - destruct (e_prox (w_sv w) f) as [q|] eqn:Eq; [exists q; reflexivity|].
+    destruct (al_connect_first w AL f p Ep Eq) as (fr & rest & E & _).
+    rewrite (quiescent_paths w Q Client) in E. discriminate.
+  - destruct (al_sv_cl w AL f p Ep) as (q & Eq & _). exists q. exact Eq.
+Qed.
+
+(* a handler that waits for the outside world (its own socket may deliver more, or its
+   connect is pending), or has the F20 shape *)
+Definition waits_outside (sd : side) (fid : N) (p : proxy) (x : mux) : Prop :=
+  In WSockR (pre_ws sd fid p x) \/ s_conn (p_s p) = true \/ finished_test (pre_p sd fid p x) = true.
+
+(* C02, last sentence, with exactly the F20 shape excluded: in a quiescent reachable
+   state every handler the loop still runs waits for the outside world — directly, or
+   it has passed on its own end-of-stream and waits for its peer's, and then the peer's
+   handler is alive, has seen that end-of-stream, has not sent its own, and waits for
+   the outside world.  So no two handlers wait for each other, none waits for a peer
+   that is gone, and the only handlers that wait for nothing are F20-shaped. *)
+Theorem quiet_wait_chain maxc lbs w sd f p :
+  reachable maxc lbs w -> w_stale w = false -> quiescent w ->
+  e_prox (get_end w sd) f = Some p -> active p = true ->
+  waits_outside sd f p (e_mux (get_end w sd)) \/
+  (m_sw (p_m p) = true /\ m_sr (p_m p) = false /\
+   exists q, e_prox (get_end w (other sd)) f = Some q /\ active q = true /\
+             m_sr (p_m q) = true /\ m_sw (p_m q) = false /\
+             waits_outside (other sd) f q (e_mux (get_end w (other sd)))).
+Proof.
+  intros Hr Hst Q Ep Ha. pose proof (reachable_Pall _ _ _ Hr) as PA.
+  pose proof (quiet_live_proxy_shape maxc lbs w sd f p Hr Q Ep Ha) as S. cbv zeta in S.
+  unfold waits_outside.
+  destruct (In_dec (fun a b : waitfd => ltac:(decide equality) : {a = b} + {a <> b}) WSockR
+                   (pre_ws sd f p (e_mux (get_end w sd)))) as [A|NA]; [auto|].
+  destruct (s_conn (p_s p)) eqn:Ec; [auto|].
+  destruct S as [[A _]|[[B1 B2]|[C|[_ D]]]]; auto; try discriminate.
+  right.
+  pose proof (quiescent_not_paused _ _ _ Hr Q sd) as Htf. unfold tf in Htf.
+  pose proof (eq_prox _ _ (quiescent_end w sd Q) f p Ep Ha) as Qp.
+  destruct (proxy_quiet_buffers _ _ _ _ Qp Htf Ec) as [Hsb Hmb].
+  (* p does not wait for WSockR: shut_read or EOF sent; it waits for WMuxR *)
+  apply wait_set_spec in B1. destruct B1 as (_ & Hmsr & Hssw).
+  assert (Hmsw : m_sw (p_m p) = true).
+  { destruct (m_sw (p_m p)) eqn:E; [reflexivity|].
+    destruct (s_sr (p_s p)) eqn:Esr.
+    - rewrite <- E. apply (pi_eof p (PA sd f p Ep)); assumption.
+    - exfalso. apply NA. apply wait_set_spec. rewrite Hsb. cbn [nonempty_buf]. auto. }
+  splits; auto.
+  destruct (quiet_peer_exists maxc lbs w sd f p Hr Hst Q Ep) as (q & Eq).
+  pose proof (quiet_flags_agree maxc lbs w sd f Hr Hst Q) as G1.       (* p reads, q writes *)
+  pose proof (quiet_flags_agree maxc lbs w (other sd) f Hr Hst Q) as G2. (* q reads, p writes *)
+  unfold rprox, wprox in G1, G2. rewrite oth_oth in G2. rewrite Ep, Eq in G1, G2. cbn [pM] in G1, G2.
+  rewrite Hmsw in G1. rewrite Hmsr in G2.
+  pose proof (PA (other sd) f q Eq) as Pq.
+  assert (Hqa : active q = true).
+  { apply (active_of_ok q Pq). destruct (p_ok q) eqn:E; [reflexivity|].
+    destruct (pi_dead q Pq E) as (_ & _ & _ & H). congruence. }
+  exists q. splits; auto.
+  pose proof (quiet_live_proxy_shape maxc lbs w (other sd) f q Hr Q Eq Hqa) as S'. cbv zeta in S'.
+  destruct S' as [[A' _]|[[_ B2']|[C'|[_ D']]]]; auto.
+  exfalso. destruct (pre_p_fields (other sd) f q (e_mux (get_end w (other sd)))) as (_ & F2 & _).
+  rewrite F2, <- G1 in B2'. discriminate.
+Qed.
+
+(* ================================================================== *)
+(* 11. Non-vacuity: reachable quiescent states, and the F20 witness     *)
+(* ================================================================== *)
+
+Definition qio0 : io := mkIO ConnDone RecvAgain SendAgain true.
+Definition q_ab : bytes := [ascii_of_N 97; ascii_of_N 98].
+
+(* both ends exchange the initial PING/PONG; one connection is accepted, its CONNECT
+   reaches the server and the destination connect succeeds *)
+Definition q_open : list event :=
+  [EvAccept []; EvFlush Client; EvFlush Client; EvFlush Server;
+   EvDeliver Server qio0; EvDeliver Server qio0; EvDeliver Client qio0;
+   EvFlush Client; EvFlush Server; EvDeliver Server qio0; EvDeliver Client qio0].
+(* the application writes "ab"; it travels to the destination *)
+Definition q_data : list event :=
+  [EvCallback Client 0 (mkIO ConnDone (RecvData q_ab) SendAgain true); EvFlush Client; EvDeliver Server qio0;
+   EvCallback Server 0 (mkIO ConnDone RecvAgain (SendAccept 2) true)].
+(* orderly close from both sides, handlers dropped *)
+Definition q_close : list event :=
+  [EvCallback Client 0 (mkIO ConnDone RecvEof SendAgain true); EvFlush Client; EvDeliver Server qio0;
+   EvCallback Server 0 qio0;
+   EvCallback Server 0 (mkIO ConnDone RecvEof SendAgain true); EvFlush Server; EvDeliver Client qio0;
+   EvCallback Client 0 qio0; EvRemove Client 0; EvRemove Server 0].
+(* instead: the application resets its connection (recv fails); the client's handler
+   sends EOF in the callback and STOP_SENDING from pre_select; both frames reach the server *)
+Definition q_reset : list event :=
+  [EvCallback Client 0 (mkIO ConnDone RecvErr SendAgain true); EvPreSelect Client 0;
+   EvFlush Client; EvFlush Client; EvDeliver Server qio0; EvDeliver Server qio0].
+
+Definition quiet_after_run (evs : list event) : bool :=
+  match run (world0 65535 32768) evs with
+  | Ok w => quiescent_eagerb w && negb (w_stale w)
+  | Crash _ => false
+  end.
+
+Example quiet_ex_idle : quiet_after_run q_open = true.
+Proof. vm_compute. reflexivity. Qed.
+
+Example quiet_ex_transfer :
+  quiet_after_run (q_open ++ q_data) = true /\
+  match run (world0 65535 32768) (q_open ++ q_data) with
+  | Ok w => dst_written w 0 = q_ab /\ app_read w 0 = q_ab
+  | Crash _ => False
+  end.
+Proof. vm_compute. auto. Qed.
+
+(* data still in the client's queue: not quiescent *)
+Example quiet_ex_pending :
+  quiet_after_run (q_open ++ [EvCallback Client 0 (mkIO ConnDone (RecvData q_ab) SendAgain true)]) = false.
+Proof. vm_compute. reflexivity. Qed.
+
+Example quiet_ex_closed : quiet_after_run (q_open ++ q_data ++ q_close) = true.
+Proof. vm_compute. reflexivity. Qed.
+
+(* F20: after the reset the state is quiescent, both handlers are still run by the
+   loop (ok = True, not dropped), and both wait for nothing *)
+Example quiet_ex_f20 :
+  match run (world0 65535 32768) (q_open ++ q_data ++ q_reset) with
+  | Ok w =>
+    quiescent_eagerb w = true /\ w_stale w = false /\
+    exists pc ps, e_prox (w_cl w) 0 = Some pc /\ e_prox (w_sv w) 0 = Some ps /\
+      active pc = true /\ active ps = true /\
+      pre_ws Client 0 pc (e_mux (w_cl w)) = [] /\ pre_ws Server 0 ps (e_mux (w_sv w)) = [] /\
+      finished_test (pre_p Client 0 pc (e_mux (w_cl w))) = true /\
+      finished_test (pre_p Server 0 ps (e_mux (w_sv w))) = true /\
+      (* the destination socket was never shut down: the flow is half-open for good *)
+      s_sw (p_s ps) = false
+  | Crash _ => False
+  end.
+Proof. vm_compute. splits; auto. eexists. eexists. splits; reflexivity. Qed.
+
+(* ================================================================== *)
+(* 12. Statements proposed for Props/C01.v, C02.v, C09.v                *)
+(* ================================================================== *)
+
+Lemma run_reachable maxc lbs evs w : run (world0 maxc lbs) evs = Ok w -> reachable maxc lbs w.
+Proof. intros H. exists evs. exact H. Qed.
+
+Lemma run_quiescent maxc lbs evs w : run (world0 maxc lbs) evs = Ok w -> quiescentb w = true -> quiescent w.
+Proof.
+  intros H Hq. apply quiescentb_spec; [|exact Hq]. exact (run_Winv evs _ _ (Winv_world0 maxc lbs) H).
+Qed.
+
+(* --- C09 --- *)
+(* While an end is paused by latency control (too_full), its round-trip probe is
+   outstanding: the PING 'rttest' is in its queue or on the link to the peer, or the
+   PONG 'rttest' is in the peer's queue or on the link back.  All runs, all I/O. *)
+Theorem q_c09_outstanding : forall maxc lbs evs w sd,
+  run (world0 maxc lbs) evs = Ok w -> tf w sd = true -> outstanding w sd = true.
+Proof. intros maxc lbs evs w sd H. exact (outstanding_inv maxc lbs w sd (run_reachable _ _ _ _ H)). Qed.
+Print Assumptions q_c09_outstanding.
+
+(* ... hence the tunnel is never wedged: with all queues and links drained no end is paused. *)
+Theorem q_c09_never_wedged : forall maxc lbs evs w,
+  run (world0 maxc lbs) evs = Ok w ->
+  w_cs w = [] -> w_sc w = [] -> outq w Client = [] -> outq w Server = [] ->
+  tf w Client = false /\ tf w Server = false.
+Proof.
+  intros maxc lbs evs w H A B C D.
+  assert (P : forall rs, path w rs = []).
+  { intros rs. unfold path, inlink. unfold outq in C, D. destruct rs; cbn [get_end] in *; rewrite ?A, ?B, ?C, ?D; reflexivity. }
+  split; apply (paths_empty_not_paused maxc lbs w (run_reachable _ _ _ _ H)); apply P.
+Qed.
+Print Assumptions q_c09_never_wedged.
+
+(* --- C02 --- *)
+(* No undelivered data while nothing is pending: in a quiescent state, for every flow
+   and direction whose receiving socket has not been shut down and is connected, the
+   peer's mux buffer, the frames on the way and the reading end's buffer are empty,
+   and everything read has been handed to the receiving socket. *)
+Theorem q_c02_no_stuck_data : forall maxc lbs evs w rs f,
+  run (world0 maxc lbs) evs = Ok w -> w_stale w = false -> quiescentb w = true ->
+  let v := view_of w rs f in
+  vfz v = false -> s_conn (pS (wprox w rs f)) = false ->
+  vY v = [] /\ vP v = [] /\ flat (vX v) = [] /\ vD v = vA v.
+Proof.
+  intros maxc lbs evs w rs f H Hs Hq.
+  exact (quiet_no_data maxc lbs w rs f (run_reachable _ _ _ _ H) Hs (run_quiescent _ _ _ _ H Hq)).
+Qed.
+Print Assumptions q_c02_no_stuck_data.
+
+(* Which handlers a quiescent state can contain (the F20 shape is alternative 4). *)
+Theorem q_c02_quiet_handler_shape : forall maxc lbs evs w sd fid p,
+  run (world0 maxc lbs) evs = Ok w -> quiescentb w = true ->
+  e_prox (get_end w sd) fid = Some p -> active p = true ->
+  let x := e_mux (get_end w sd) in
+  (In WSockR (pre_ws sd fid p x) /\ s_sr (p_s (pre_p sd fid p x)) = false) \/
+  (In WMuxR (pre_ws sd fid p x) /\ m_sr (p_m (pre_p sd fid p x)) = false) \/
+  s_conn (p_s p) = true \/
+  (pre_ws sd fid p x = [] /\ finished_test (pre_p sd fid p x) = true).
+Proof.
+  intros maxc lbs evs w sd fid p H Hq.
+  exact (quiet_live_proxy_shape maxc lbs w sd fid p (run_reachable _ _ _ _ H) (run_quiescent _ _ _ _ H Hq)).
+Qed.
+Print Assumptions q_c02_quiet_handler_shape.
+
+(* No stuck state, with exactly the F20 shape excluded (it is inside waits_outside). *)
+Theorem q_c02_no_stuck_state_partial : forall maxc lbs evs w sd f p,
+  run (world0 maxc lbs) evs = Ok w -> w_stale w = false -> quiescentb w = true ->
+  e_prox (get_end w sd) f = Some p -> active p = true ->
+  waits_outside sd f p (e_mux (get_end w sd)) \/
+  (m_sw (p_m p) = true /\ m_sr (p_m p) = false /\
+   exists q, e_prox (get_end w (other sd)) f = Some q /\ active q = true /\
+             m_sr (p_m q) = true /\ m_sw (p_m q) = false /\
+             waits_outside (other sd) f q (e_mux (get_end w (other sd)))).
+Proof.
+  intros maxc lbs evs w sd f p H Hs Hq.
+  exact (quiet_wait_chain maxc lbs w sd f p (run_reachable _ _ _ _ H) Hs (run_quiescent _ _ _ _ H Hq)).
+Qed.
+Print Assumptions q_c02_no_stuck_state_partial.
+
+(* The unrestricted sentence ("every handler of a quiescent state waits for something")
+   is false of the code: finding F20. *)
+Theorem q_c02_no_stuck_state_refuted :
+  ~ (forall maxc lbs evs w sd fid p,
+       run (world0 maxc lbs) evs = Ok w -> w_stale w = false -> quiescentb w = true ->
+       e_prox (get_end w sd) fid = Some p -> active p = true ->
+       pre_ws sd fid p (e_mux (get_end w sd)) <> []).
+Proof.
+  intros C. pose proof quiet_ex_f20 as E.
+  destruct (run (world0 65535 32768) (q_open ++ q_data ++ q_reset)) as [w|] eqn:Hr; [|exact E].
+  destruct E as (Q & Hs & pc & ps & E1 & _ & A1 & _ & W1 & _).
+  unfold quiescent_eagerb in Q. apply andb_true_iff in Q. destruct Q as [Q _].
+  apply andb_true_iff in Q. destruct Q as [Q _].
+  exact (C 65535 32768 _ w Client 0 pc Hr Hs Q E1 A1 W1).
+Qed.
+Print Assumptions q_c02_no_stuck_state_refuted.
+
+(* --- C01 --- *)
+(* Safety form of eventual delivery: once nothing is pending, every byte read from the
+   application has been handed to the destination socket (and vice versa), unless a
+   socket call of the receiving end failed (abort) or its connect is still pending. *)
+Theorem q_c01_quiescent_all_delivered : forall maxc lbs evs w f,
+  run (world0 maxc lbs) evs = Ok w -> w_stale w = false -> quiescentb w = true ->
+  (s_conn (pS (sv w f)) = false -> s_fault (pS (sv w f)) = false -> dst_written w f = app_read w f) /\
+  (s_conn (pS (cl w f)) = false -> s_fault (pS (cl w f)) = false -> app_written w f = dst_read w f).
+Proof.
+  intros maxc lbs evs w f H Hs Hq.
+  pose proof (run_reachable _ _ _ _ H) as Hr. pose proof (run_quiescent _ _ _ _ H Hq) as Q. split.
+  - exact (quiet_all_delivered maxc lbs w Client f Hr Hs Q).
+  - exact (quiet_all_delivered maxc lbs w Server f Hr Hs Q).
+Qed.
+Print Assumptions q_c01_quiescent_all_delivered.
+
+(* an end that is paused is never part of a quiescent state *)
+Theorem q_c09_paused_not_quiescent : forall maxc lbs evs w sd,
+  run (world0 maxc lbs) evs = Ok w -> tf w sd = true -> quiescentb w = false.
+Proof.
+  intros maxc lbs evs w sd H Ht. destruct (quiescentb w) eqn:Hq; [|reflexivity].
+  rewrite (quiescent_not_paused maxc lbs w (run_reachable _ _ _ _ H) (run_quiescent _ _ _ _ H Hq) sd) in Ht.
+  discriminate.
+Qed.
+Print Assumptions q_c09_paused_not_quiescent.
+
+(* ================================================================== *)
+(* 13. What is NOT proved                                               *)
+(* ================================================================== *)
+
+(* Liveness.  The theorems above say what holds ONCE the tunnel is quiescent; they do
+   not say that it becomes quiescent.  The missing half of C01 "eventually delivered",
+   C02 "no state reachable under a fair schedule is stuck" and C09 "every such request is
+   eventually answered" is the following drain statement: from every reachable state the
+   eager environment (every recv answers EAGAIN — nothing more to deliver —, every send accepts
+   everything, every connect completes, pipes always transfer) can run the two loops to a
+   quiescent state without any new input.  Together with q_c01_quiescent_all_delivered,
+   q_c02_no_stuck_data and q_c09_paused_not_quiescent it gives the three sentences.
+   Missing: a variant that every eager micro-step of a non-quiescent state decreases
+   (bytes in buffers x remaining hops, frames x remaining hops with a PING counting for
+   its PONG as well, handlers not yet finished), the no-crash argument along the drain
+   (Stream_assert.connect_assert_never_fires covers the CONNECT assertion only while
+   w_stale stays false, and the drain itself may deliver a stale frame), and — for
+   LATENCY_BUFFER_SIZE < 6 — the restriction that the drain does not call
+   check_fullness after every PONG (observation O1 of DESIGN.md: the 6-byte PONG
+   alone exceeds the budget, so PING/PONG would circulate for ever). *)
+Definition eager_io (o : io) : Prop :=
+  io_conn o = ConnDone /\ io_recv o = RecvAgain /\ (exists k, io_send o = SendAccept k /\ 65536 <= k) /\ io_shut_ok o = true.
+
+Definition eager_event (ev : event) : Prop :=
+  match ev with
+  | EvAccept _ => False                       (* no new input *)
+  | EvCallback _ _ o => eager_io o
+  | EvDeliver _ o => eager_io o
+  | EvCheckFull _ => False
+  | _ => True
+  end.
+
+Definition eager_drain_full : Prop :=
+  forall maxc lbs evs w, run (world0 maxc lbs) evs = Ok w -> w_stale w = false ->
+  exists drain, Forall eager_event drain /\
+    match run w drain with
+    | Ok w' => w_stale w' = true \/ quiescentb w' = true
+    | Crash _ => False
+    end.
